@@ -2,7 +2,7 @@
 import json, os, re
 
 VERIF = os.path.dirname(os.path.dirname(os.path.abspath(__file__)))
-CLOSURE = ["Model/Net.v", "Proofs/NetP.v", "Model/Cfg.v", "Model/CfgFull.v", "Proofs/CfgFullP.v", "Proofs/CfgIsortP.v", "Proofs/CfgAggP.v", "Proofs/CfgAllocBridgeP.v", "Proofs/CfgSortP.v", "Proofs/CfgP.v", "Proofs/CfgSummP.v", "Proofs/CfgFuelP.v", "Proofs/CfgRouteP.v", "Proofs/CfgL2P.v",
+CLOSURE = ["Model/Net.v", "Proofs/NetP.v", "Model/Cfg.v", "Model/CfgFull.v", "Proofs/CfgFullP.v", "Proofs/CfgIsortP.v", "Proofs/CfgAggP.v", "Proofs/CfgAllocBridgeP.v", "Model/Reconciler.v", "Proofs/ReconcilerP.v", "Proofs/ReconcilerCfgP.v", "Proofs/CfgSortP.v", "Proofs/CfgP.v", "Proofs/CfgSummP.v", "Proofs/CfgFuelP.v", "Proofs/CfgRouteP.v", "Proofs/CfgL2P.v",
            "Proofs/CfgPrefix.v"]
 GEN_SRC = os.path.join(VERIF, "harness", "internal", "config", "zz_verif_cfggen_test.go.in")
 
